@@ -517,7 +517,7 @@ func c01Node(w *World, r *Report, un, ma *ssa.Function) {
 					emits["Content"] = true
 				}
 			}
-			})
+		})
 		allInstrs(ma, func(in ssa.Instruction) {
 			if st, ok := in.(*ssa.Store); ok && fieldNames(fieldPath(st.Addr)) == "Name" && strings.HasSuffix(w.nf(st.Val, 0), ".XMLName") {
 				emits["XMLName"] = true
